@@ -400,6 +400,9 @@ class Check:
 
     def finish(self, level="proof"):
         self.cov["distinct_nontrivial"] = len(self.distinct)
+        if self.cov.get("discharged", 0) < 1 or self.cov.get("obligations", 0) < 1:
+            # the proof did not check on this run: do not present proof-level keys (schema: discharged >= 1)
+            self.cov["proof_broken"] = {"obligations": self.cov.pop("obligations", 0), "discharged": self.cov.pop("discharged", 0)}
         ev = {"property_id": self.prop, "tier": self.tier, "seed": self.seed, "level": level,
               "coverage": self.cov, "assumptions": self.assumptions,
               "wall_s": round(time.time() - self.t0, 2), "violations": len(self.violations),
